@@ -123,6 +123,11 @@ def _docstring(r: Any, fmt: str, n0: int, params: List[str], allow_param: bool, 
             elif k < .9 and cls:
                 fl.append(f"{mk('ivar', 'iv' + t)} {words(1)} {xref(t)}")
                 fplants.append(Plant('xref', t, first, first))
+                if r.random() < .5:
+                    # the type of the documented variable, given in the owner's docstring too, names something that does not exist
+                    t2 = tok()
+                    fl.append(f"{mk('type', 'iv' + t)} {xref(t2)}")
+                    fplants.append(Plant('xref', t2, first + 1, first + 1))
             elif k < .93 and fmt == 'restructuredtext' and allow_param and params and not any(ln.startswith(':Parameters:') for ln in fl):
                 # a well-formed consolidated field (bullet list, one item per parameter) with an unresolvable reference in the first
                 # paragraph of an item and in a continuation line: the item is the block that contains the problem
